@@ -348,7 +348,7 @@ impl Prop for C10 {
         let mut v = Vec::new();
         for ty in ["PUSH", "DEALER", "REQ"] {
             for n in 0..=6usize {
-                for k in 0..tier.pick(30, 300) {
+                for k in 0..tier.pick(150, 1500) {
                     v.push(json!({"kind": "run", "ty": ty, "peers": n, "seed": mix(seed ^ (k as u64) << 4 ^ n as u64)}));
                     if n == 0 {
                         break;
